@@ -27,10 +27,14 @@ Pre(t, side) ==
         \o MapS(b, LAMBDA c : MFilter(side, <<Fn2("gt", Col(c), LitI(0))>>))
         \o MapS(a, LAMBDA c : MFilter(side, <<Fn1("is_not_null", Col(c))>>))
         \o (IF EmitAll /\ b # <<>> /\ fresh("w") THEN <<MMutate(side, <<KV("w", Agg("sum", Col(b[1])))>>)>> ELSE <<>>)     \* a window column
-        \o (IF EmitAll /\ b # <<>> /\ t.part = <<>> THEN <<MGroupBy(side, <<Col(b[1])>>, FALSE)>> ELSE <<>>)
-        \o (IF EmitAll /\ t.part # <<>> /\ fresh("s") /\ a # <<>> THEN <<MSummarize(side, <<KV("s", Agg("max", Col(a[1])))>>)>> ELSE <<>>)
+        \o (IF EmitAll /\ a # <<>> /\ t.part = <<>> THEN <<MGroupBy(side, <<Col(a[1])>>, FALSE)>> ELSE <<>>)          \* by the join key, so that it survives the summarize
+        \o (IF EmitAll /\ t.part # <<>> /\ fresh("s") /\ b # <<>> THEN <<MSummarize(side, <<KV("s", Agg("max", Col(b[1])))>>)>> ELSE <<>>)
         \o (IF EmitAll /\ a # <<>> THEN <<MArrange(side, <<Ord(Col(a[1]), FALSE, "last")>>)>> ELSE <<>>)
         \o (IF EmitAll THEN <<MSlice(side, 3, 0)>> ELSE <<>>)
+        \* overwriting mutates keep the column names (a union needs equal names on both sides)
+        \o (IF EmitAll /\ b # <<>> THEN <<MMutate(side, <<KV("b", Fn2("add", Col(b[1]), LitI(1)))>>),
+                                           MMutate(side, <<KV("b", Agg("sum", Col(b[1])))>>)>> ELSE <<>>)
+        \o (IF EmitAll /\ b # <<>> /\ t.part = <<>> THEN <<MSummarize(side, <<KV("b", Agg("max", Col(b[1])))>>)>> ELSE <<>>)     \* ungrouped summarize: one column b
 
 Init == /\ tl = SrcTables[LeftSrc] /\ tr = SrcTables[RightSrc]
         /\ ql = Q0(tl) /\ qr = Q0(tr) /\ cl = Cs0 /\ cr = Cs0
@@ -100,6 +104,22 @@ DecisionStep ==      \* conformance mode: every reachable pair of sides x join k
 JoinFilt(a, b, how) == a.filt \/ (how = "inner" /\ b.filt)      \* the WHERE list of an inner join holds the right side's predicates too (F27)
 JoinCs(a, b, how) == [Cs0 EXCEPT !.filt = JoinFilt(a, b, how)]
 
+(* Cache.requires_subquery, Union rules (the same for both sides) *)
+RqUnion(c, t) ==
+    IF c.lim # 0 THEN "union after slice_head"
+    ELSE IF c.grp # {} \/ c.summ THEN "union with a grouped table"
+    ELSE IF \E x \in VisSet(t) : t.fk[x] = "w" THEN "union with a table containing window function expression"
+    ELSE ""
+
+UnionDecisionStep ==
+    /\ phase = "pre" /\ EmitAll
+    /\ \E dist \in BOOLEAN :
+         /\ Union(tl, tr, dist).ok
+         /\ PrintT(ToJson([left |-> SrcTables[LeftSrc].name, right |-> SrcTables[RightSrc].name, pre |-> trace, how |-> "union", distinct |-> dist,
+                            needL |-> RqUnion(cl, tl), needR |-> RqUnion(cr, tr)]))
+         /\ phase' = "decided"
+    /\ UNCHANGED <<tl, tr, ql, qr, cl, cr, nid, steps, trace, t12, q12, c12, how1>>
+
 JoinStep ==
     /\ phase = "pre" /\ ~EmitAll
     /\ \E how \in {"inner", "left", "full"} :
@@ -138,7 +158,7 @@ Join2Step ==
             /\ phase' = IF SameVisible(F, S.t) THEN "ok2" ELSE "bad2"
     /\ UNCHANGED <<tl, tr, ql, qr, cl, cr, nid, steps, trace, t12, q12, c12, how1>>
 
-Next == PreStep \/ JoinStep \/ Join2Step \/ DecisionStep
+Next == PreStep \/ JoinStep \/ Join2Step \/ DecisionStep \/ UnionDecisionStep
 
 View == <<tl, tr, ql, qr, cl, cr, nid, steps, phase, how1>>
 
